@@ -52,7 +52,7 @@ Record enum_env := EE { ee_prefix : str; ee_options : list str }.
 
 Inductive fty :=
 | TInt (k : ikind) (r : option int_rules) (l : option lpay)
-| TStr (r : option str_rules) (l : option lpay)
+| TStr (f : option str) (r : option str_rules) (l : option lpay)   (* StringField.format *)
 | TBytes (r : option len_rules)
 | TBool (r : option (option bool)) (l : option lpay)     (* rules present; const *)
 | TEnum (r : option enum_rules) (l : option lpay)
@@ -61,7 +61,7 @@ Inductive fty :=
 | TDate (r : option txt_rules) (l : option lpay)
 | TDecimal (r : option txt_rules) (l : option lpay)
 | TTimestamp (l : option lpay)
-| TAny (l : option lpay)
+| TAny (only_defined : bool) (types : list str) (l : option lpay)
 | TObject (flatten : bool)
 | TOneof (l : option lpay).
 
